@@ -467,8 +467,9 @@ if not VIOLATED:
             pass
     VP.LOG.clear()
     dt = pyxel.run_mode(mode=obs, detector=VP.detector(), pipeline=pipe, override_dct={'pipeline.photon_collection.w.arguments.photon': 7.0})
-    if len(VP.LOG) != 2 or any(x['kwargs'].get('photon') != 7.0 for x in VP.LOG) or sorted(x['kwargs'].get('pixel_add') for x in VP.LOG) != [1.0, 2.0]:
-        VIOLATED, DETAIL = True, f'observation with an override: calls {[(x["kwargs"]) for x in VP.LOG]}'
+    ph = np.asarray((dt['/bucket'] if '/bucket' in dt.groups else dt)['photon'].values)
+    if len(VP.LOG) != 2 or sorted(x['kwargs'].get('pixel_add') for x in VP.LOG) != [1.0, 2.0] or not np.all(ph == 7.0):
+        VIOLATED, DETAIL = True, f'observation with the override photon=7: calls {[(x["kwargs"]) for x in VP.LOG]}, photon bucket {ph.ravel()[:3]}'
 """, "expect": "run_mode: given detector / pipeline / flags / overrides reach the run; the run's result comes back"}
 
 
